@@ -472,26 +472,114 @@ theorem multi_step_expression_error_repaired :
 
 FULL statement: whatever `literal_eval` does (raises anything, returns any Python literal) the action either returns a value that
 a flow variable / the serialised state can hold, or raises the fixed `Invalid LLM response` (contained by the action dispatcher).
-True of the REPAIRED wrapper (`generate_value_v2_total`, fixes/C17-v2-generated-value-plain.diff); false as is
-(`generate_value_v2_nonstorable_as_is_counterexample`, open finding `escape:v2_value:serialization.py:encode_to_dict:Exception`). -/
+True of the wrapper as it is since /repo 98bf321 (`generate_value_v2_total`; model `generateValueV2R`); false before
+(`generate_value_v2_nonstorable_as_is_counterexample`, finding `escape:v2_value:serialization.py:encode_to_dict:Exception`, fixed). -/
 
 theorem generate_value_v2_total {ε : Type} (literalEval : Str → Except ε Lit) (p : Parser) (lastPromptLine out : Str) :
     (∃ x, generateValueV2R literalEval p lastPromptLine out = .ok x ∧ x.isPlain = true)
     ∨ ∃ v, generateValueV2R literalEval p lastPromptLine out = .error (.invalidLlmResponse v) :=
   generateValueV2R_spec literalEval p lastPromptLine out
 
-/-- as is: only the exception class is controlled (`…_partial`: nothing is said about the returned value) -/
+/-- before 98bf321: only the exception class is controlled (`…_partial`: nothing is said about the returned value) -/
 theorem generate_value_v2_total_partial {ε : Type} (literalEval : Str → Except ε Lit) (p : Parser) (lastPromptLine out : Str) :
     (∃ x, generateValueV2 literalEval p lastPromptLine out = .ok x)
     ∨ ∃ v, generateValueV2 literalEval p lastPromptLine out = .error (.invalidLlmResponse v) :=
   generateValueV2_spec literalEval p lastPromptLine out
 
-/-- as is, `...` (Ellipsis) reaches the flow variable: a value the state serialisation cannot store -/
+/-- before 98bf321, `...` (Ellipsis) reaches the flow variable: a value the state serialisation cannot store -/
 theorem generate_value_v2_nonstorable_as_is_counterexample :
     ∃ x, generateValueV2 (ε := Unit) (fun _ => .ok .ellipsis) .none (lit "$v =") (lit "...") = .ok x ∧ x.isPlain = false :=
   ⟨.ellipsis, by
     obtain ⟨v, hv⟩ := postValueV2_ok .none (lit "$v =") (lit "...")
     simp [generateValueV2, hv], rfl⟩
+
+/-! ## Phase 6 — the guard `_is_plain_value` against the END of the turn (`state_to_json`)
+
+FULL statement: whatever `literal_eval` returns — any Python literal, with any atom kind at ANY position: element, dict value, dict
+KEY, inside a tuple that is a key, nested — a value that `GenerateValueAction` returns is accepted by `state_to_json`
+(= `json.dumps ∘ encode_to_dict`), so the turn that stores it ends with a serialised state.
+`encode_to_dict` half: true as is (`generate_value_v2_encodable`).  `json.dumps` half: false as is — an int beyond CPython's
+int→str limit is plain data for the guard (`generate_value_v2_hugeint_as_is_counterexample`, open finding
+`escape:v2_value:serialization.py:state_to_json:ValueError`); true under the hypothesis that `literal_eval` returned no such int
+(`generate_value_v2_storable_partial`) and, without hypothesis, of the repaired guard (`generate_value_v2_storable_repaired`,
+fixes/C17-v2-generated-value-printable-int.diff).
+Tie: `Lit.isPlain` vs the real `_is_plain_value`, `Lit.storable` vs the real `state_to_json`, `generateValueV2R` vs the real action,
+on every literal the generator produces (every atom kind × every position, random trees). -/
+
+/-- the guard accepts EXACTLY what `encode_to_dict` accepts (dict keys included) -/
+theorem plain_iff_encodable (x : Lit) : x.isPlain = x.encodable := Lit.isPlain_eq_encodable x
+
+/-- the guard looks at the KEYS of a dict as well as at its values … -/
+theorem isPlain_checks_dict_keys (kvs : List (Lit × Lit)) (h : (Lit.dict kvs).isPlain = true) :
+    ∀ kv ∈ kvs, kv.1.isPlain = true ∧ kv.2.isPlain = true :=
+  Lit.allPlainKV_mem kvs (by simpa [Lit.isPlain] using h)
+
+example : (Lit.dict [(.str (lit "item"), .int 2), (.tuple [.int 1, .int 2], .str (lit "pizza"))]).isPlain = true := by decide
+
+/-- … and at every element of a list / tuple / set (so also at the members of a tuple that is a key) -/
+theorem isPlain_checks_elements (l : List Lit) :
+    ((Lit.list l).isPlain = true → ∀ x ∈ l, x.isPlain = true) ∧ ((Lit.tuple l).isPlain = true → ∀ x ∈ l, x.isPlain = true)
+    ∧ ((Lit.set l).isPlain = true → ∀ x ∈ l, x.isPlain = true) :=
+  ⟨fun h => Lit.allPlain_mem l (by simpa [Lit.isPlain] using h), fun h => Lit.allPlain_mem l (by simpa [Lit.isPlain] using h),
+   fun h => Lit.allPlain_mem l (by simpa [Lit.isPlain] using h)⟩
+
+/-- the four literals of the seeded change `plain-value-ignores-dict-keys` (and a plain neighbour of each shape) -/
+theorem nonplain_key_witnesses :
+    (Lit.dict [(.ellipsis, .str (lit "pizza"))]).isPlain = false
+    ∧ (Lit.dict [(.bytes (lit "item"), .str (lit "pizza"))]).isPlain = false
+    ∧ (Lit.dict [(.str (lit "order"), .dict [(.complex (lit "2j"), .str (lit "pizza"))])]).isPlain = false
+    ∧ (Lit.list [.dict [(.tuple [.int 1, .ellipsis], .str (lit "pizza"))]]).isPlain = false
+    ∧ (Lit.list [.dict [(.tuple [.int 1, .int 2], .str (lit "pizza"))]]).isPlain = true := by decide
+
+/-- as is: a returned value never makes `encode_to_dict` raise — ∀ behaviour of `literal_eval`, ∀ completion -/
+theorem generate_value_v2_encodable {ε : Type} (literalEval : Str → Except ε Lit) (p : Parser) (lastPromptLine out : Str) (x : Lit)
+    (h : generateValueV2R literalEval p lastPromptLine out = .ok x) : x.encodable = true := by
+  rw [← plain_iff_encodable]; exact generateValueV2R_ok_plain literalEval p lastPromptLine out x h
+
+example : ∃ x, generateValueV2R (ε := Unit) (fun _ => .ok (.dict [(.tuple [.int 1, .int 2], .str (lit "pizza"))])) .none (lit "$v =") (lit "{(1, 2): 'pizza'}") = .ok x := by
+  obtain ⟨v, hv⟩ := postValueV2_ok .none (lit "$v =") (lit "{(1, 2): 'pizza'}")
+  exact ⟨_, by simp only [generateValueV2R, hv]; rfl⟩
+
+/-- as is, under the hypothesis that `literal_eval` returns no unprintable int: the returned value is accepted by `state_to_json` -/
+theorem generate_value_v2_storable_partial {ε : Type} (literalEval : Str → Except ε Lit) (p : Parser) (lastPromptLine out : Str) (x : Lit)
+    (hint : ∀ v y, literalEval v = .ok y → y.printable = true)
+    (h : generateValueV2R literalEval p lastPromptLine out = .ok x) : x.storable = true := by
+  have he := generate_value_v2_encodable literalEval p lastPromptLine out x h
+  have hp : x.printable = true := by
+    unfold generateValueV2R at h
+    split at h
+    · simp at h
+    · split at h
+      · simp at h
+      · rename_i v _ y hy
+        split at h
+        · simp only [Except.ok.injEq] at h; subst h; exact hint _ _ hy
+        · simp at h
+  simp [Lit.storable, he, hp]
+
+/-- non-vacuity of `hint` (an oracle that returns a dict with an int key) -/
+example : ∀ (v : Str) y, (fun (_ : Str) => (Except.ok (Lit.dict [(.int 1, .str [])]) : Except Unit Lit)) v = .ok y → y.printable = true := by
+  intro v y h
+  simp only [Except.ok.injEq] at h
+  subst h
+  decide +kernel
+
+/-- the hypothesis is needed: `0x1` followed by 3600 zeros is an int for `literal_eval`, plain data for the guard, and refused by `json.dumps` -/
+theorem generate_value_v2_hugeint_as_is_counterexample :
+    ∃ x, generateValueV2R (ε := Unit) (fun _ => .ok (.list [.int (Int.ofNat (16 ^ 3600))])) .none (lit "$v =") (lit "[0x1…]") = .ok x
+      ∧ x.isPlain = true ∧ x.storable = false := by
+  obtain ⟨v, hv⟩ := postValueV2_ok .none (lit "$v =") (lit "[0x1…]")
+  exact ⟨.list [.int (Int.ofNat (16 ^ 3600))], by simp only [generateValueV2R, hv]; rfl, by decide +kernel, by decide +kernel⟩
+
+/-- repaired guard, full strength: ∀ behaviour of `literal_eval`, ∀ completion — a value `state_to_json` accepts, or the fixed
+    `Invalid LLM response` -/
+theorem generate_value_v2_storable_repaired {ε : Type} (literalEval : Str → Except ε Lit) (p : Parser) (lastPromptLine out : Str) :
+    (∃ x, generateValueV2S literalEval p lastPromptLine out = .ok x ∧ x.storable = true)
+    ∨ ∃ v, generateValueV2S literalEval p lastPromptLine out = .error (.invalidLlmResponse v) := by
+  rcases generateValueV2S_spec literalEval p lastPromptLine out with ⟨x, hx⟩ | h
+  · have := generateValueV2S_ok literalEval p lastPromptLine out x hx
+    exact .inl ⟨x, hx, by simp [Lit.storable, ← plain_iff_encodable, this.1, this.2]⟩
+  · exact .inr h
 
 /-! ## Phase 2 — the dataflow theorem over GENERATED data
 
